@@ -4,6 +4,7 @@
 pub mod common;
 pub mod matching;
 pub mod relational;
+pub mod report;
 
 use crate::Leaf;
 use crate::ledger::Skeleton;
@@ -11,6 +12,8 @@ use crate::ledger::Skeleton;
 pub fn run(prop: &str, sk: &Skeleton) -> Leaf {
     match prop {
         "C01" | "C02" | "C03" | "C05" => matching::run(prop, sk),
+        "C04" => report::c04(sk),
+        "C07" => report::c07(sk),
         "C06" => relational::c06(sk),
         "C09" => relational::c09(sk),
         "C10" => relational::c10(sk),
